@@ -428,6 +428,55 @@ func (w *World) scriptCost(s Script, depth int) int {
 
 const maxScriptCost = 120 // x ~2M gas per action stays below the 500M minimum limit
 
+// lockTx: miner apply / add-stake with stake amounts around the minimum stakes and the sender's balance.
+func (g *Gen) lockTx() {
+	w := g.w
+	src := g.pickEOA()
+	bal := new(big.Int).Div(w.adb.GetBalance(src), oneRPG).Uint64()
+	n := uint64(g.r.Pick(0, 1, 399, 400, 401, 1999, 2000, 2001))
+	switch g.r.Intn(4) {
+	case 0:
+		n = bal
+	case 1:
+		n = bal + 1
+	case 2:
+		if bal > 0 {
+			n = bal - 1
+		}
+	}
+	apply := g.r.Chance(2, 3) || len(w.miners) == 0
+	// a pending (same block) apply for this account makes the registry outcome order-dependent: keep one per block
+	for _, pm := range w.pendingMiners {
+		if pm.account == src {
+			apply = false
+		}
+	}
+	spoil := 0
+	if g.r.Chance(1, 8) {
+		spoil = 1 + g.r.Intn(2)
+	}
+	w.QueueLock(g, src, n, apply, spoil)
+}
+
+func (g *Gen) refund() {
+	k := g.r.Intn(4)
+	var l [][2]interface{}
+	seen := map[common.Address]bool{}
+	for i := 0; i < k; i++ {
+		a := g.pickAddr()
+		if seen[a] {
+			continue
+		}
+		seen[a] = true
+		v := rpg(int64(g.r.Intn(500)))
+		if g.r.Chance(1, 3) {
+			v = new(big.Int).SetUint64(g.r.U64() % 1000000000000000000)
+		}
+		l = append(l, [2]interface{}{a, v})
+	}
+	g.w.Refund(l)
+}
+
 func (g *Gen) operatorTx() {
 	w := g.w
 	src := g.pickEOA()
